@@ -87,6 +87,8 @@ package dns
 //@   ensures err != nil && qName != "" ==> (forall t int {ruleHolds(t)} :: 0 <= t && t < N() && isTail(t) ==> !ruleHolds(t))
 //@   loop 1
 //@     invariant bin128 == nil || fresh(bin128)
+//@     invariant len(bin128) == $idx
+//@     exit $idx == len(ips)
 //@   loop 2
 //@     invariant 0 <= rs($idx) && rs($idx) <= ss($idx) && ss($idx) <= $idx && $idx <= N()
 //@     invariant badRule ==> !goodSubrule
@@ -271,3 +273,19 @@ package dns
 //@   loop 1
 //@     entry $range == b.simulatedDomainSet
 //@     exit $idx == len($range)
+
+// C07 (meaning of qtype values): a value is a mnemonic of miekg/dns (case-insensitive) or a number in Go
+// integer-literal syntax (base taken from the prefix, so 65 is decimal) that fits 16 bits; value k becomes
+// element k; anything else is an error.
+//@ func TypeParserFactory$1
+//@   anchorsonly
+//@   nonilcheck
+//@   dyncalls noeffect
+//@   modifies *
+//@   at call strings.ToUpper#1 assert a0 == paramValueGroup[$idx]
+//@   at call strconv.ParseUint#1 assert a0 == paramValueGroup[$idx] && a1 == 0 && a2 == 16
+//@   at call builtin:append#1 assert a0 == types && len(types) == $idx && ok
+//@   at call builtin:append#2 assert a0 == types && len(types) == $idx
+//@   at call dyn:callback#1 assert a0 == f && a1 == types && a2 == overrideOutbound && len(types) == len(paramValueGroup)
+//@   loop 1
+//@     invariant len(types) == $idx
